@@ -217,6 +217,25 @@ def body(ctx):
                     ctx.count(evaluations=1)
                     if rsaproj.recover_token(sg, n, e) != btok:
                         ctx.violation('C17.SignerSound', dict(kind='boundary token (signature with a leading zero byte)', signer=name, key=ki, token=btok.hex(), signature_length=len(sg)))
+            # history on one signer object: whatever it was asked to sign before (a 16-byte nonce of a toy server, a garbled AUTH payload,
+            # nothing at all), every later 20-byte token is signed as if it were the first
+            for (name, make) in signers(path):
+                for first in (b'notadb', bytes(16), b'', bytes(range(64)), bytes(21)):
+                    sg_ = make()
+                    try:
+                        sg_.Sign(first)
+                    except Exception:  # noqa  (a signer may refuse a digest of the wrong size)
+                        pass
+                    tk_ = rng.getrandbits(160).to_bytes(20, 'big')
+                    ctx.count(evaluations=1)
+                    try:
+                        got_ = bytes(sg_.Sign(tk_))
+                    except Exception as x:  # noqa
+                        got_ = b''
+                    if rsaproj.recover_token(got_, n, e) != tk_:
+                        ctx.violation('C17.SignerSound', dict(kind='a 20-byte token signed after the signer was asked to sign something else', signer=name, key=ki,
+                                                              first=first.hex(), token=tk_.hex(), signature_length=len(got_)),
+                                      finding='F3' if (f3 and name == 'PycryptodomeAuthSigner') else None)
             ctx.extra.setdefault('boundary_tokens_found', 0)
             ctx.extra['boundary_tokens_found'] += 1 if btok is not None else 0
             # key rotation: keygen again at the same path - the public key file must belong to the new private key
